@@ -711,6 +711,13 @@ class CellsImpl(*_cells_impl_base):
             raise ValueError("%s not a scalar" % self.name)
 
     def on_inherit(self, updater, bases):
+        base = bases[0]
+        if (self.formula is base.formula
+                and self.allow_none == base.allow_none
+                and self.is_cached == base.is_cached):
+            # Nothing to update: input values are kept
+            self.clear_all_values(clear_input=False)
+            return
         self.model.clear_obj(self)
         self.formula = bases[0].formula
         self.allow_none = bases[0].allow_none
